@@ -118,6 +118,8 @@ def tlc(module, cfg, tag, workers=NCPU, env=None, timeout=3000, heap='8g', extra
     # judges run one worker each, many side by side: serial GC and C1 only keep them from fighting for cores
     gc = '-XX:+UseSerialGC -XX:TieredStopAtLevel=1' if workers == 1 else \
          '-XX:+UseParallelGC -XX:ParallelGCThreads=%d' % max(2, min(workers, 8))
+    # TLC leaves an empty tlc-<n> directory in java.io.tmpdir on every start: keep it inside the (removed) metadir
+    gc += ' -Djava.io.tmpdir=%s' % md
     cmd = ('cd %s && timeout %d java %s -Xmx%s -Xss64m -cp /opt/veriftools/tla/tla2tools.jar:'
            '/opt/veriftools/tla/CommunityModules-deps.jar tlc2.TLC -noGenerateSpecTE -workers %d -metadir %s -config %s %s %s.tla > %s 2>&1'
            % (SPEC, timeout, gc, heap, workers, md, cfgp, extra, module, logp))
